@@ -25,7 +25,7 @@ from .env import SimStream, SimByteSink
 from .forkserver import ForkServer
 from . import readback
 
-WATCHDOG_S = 180
+WATCHDOG_S = 900
 LEVELS = {"L": 1, "M": 0, "Q": 3, "H": 2}
 LEVEL_NAMES = {v: k for k, v in LEVELS.items()}
 FACTORIES = ["pil", "pypng", "svg", "svgpath", "svgfrag", "styled"]
@@ -1303,7 +1303,7 @@ def worker_fini(ctx):
 
 
 def execute(ctx, case, log):
-    res = ctx["fs"].run(run_case, case, timeout=150.0)
+    res = ctx["fs"].run(run_case, case, timeout=400.0)
     log.lines.extend(res["log"][1:])
     vs = [Violation.from_json(v) for v in res["violations"]]
     ctx["last"] = res
